@@ -7,6 +7,7 @@ import (
 	"log"
 	"os"
 	"path/filepath"
+	"runtime/debug"
 	"sort"
 	"strings"
 	"sync"
@@ -166,6 +167,9 @@ type Sess struct {
 	AfterInjected func(o Op)
 	Yields        int // yield points seen in the last maintenance call
 	lastDone      bool
+	// NoListing suppresses the directory listing after Compact (golden directories written by the pinned
+	// version may contain side files that version leaked).
+	NoListing bool
 	// Digest accumulates a hash of every response (differential runs, C17).
 	Digest  bool
 	resHash uint64
@@ -506,9 +510,16 @@ func (s *Sess) Do(o Op) error {
 			}
 		case "getappend":
 			var v []byte
-			v, err = db.GetAppend(key, []byte(o.Buf))
+			var gbuf []byte
+			if o.Buf != "" {
+				gbuf = []byte(o.Buf)
+			}
+			v, err = db.GetAppend(key, gbuf)
 			s.hold(v)
 			scribble(key)
+			// With a nil/empty buffer an empty value and a missing key both give an empty result
+			// (append(nil, empty...) is nil): that call cannot tell them apart and is not asked to.
+			ret["amb"] = len(gbuf) == 0 && len(v) == 0
 			ret["nil"], ret["v"], ret["pre"] = v == nil, "", ""
 			if v != nil {
 				n := len(o.Buf)
@@ -549,7 +560,7 @@ func (s *Sess) Do(o Op) error {
 			before := segNames(ListDir(s.Root, s.Dir))
 			cr, err = db.Compact()
 			ret["segments"], ret["records"] = cr.CompactedSegments, cr.ReclaimedRecords
-			if err == nil && s.Cfg.Strict {
+			if err == nil && s.Cfg.Strict && !s.NoListing {
 				// C15: what the directory looks like after a successful compaction
 				after := ListDir(s.Root, s.Dir)
 				have := map[string]bool{}
@@ -640,6 +651,7 @@ func (s *Sess) hold(b []byte) {
 	if !s.Hold || b == nil {
 		return
 	}
+	debug.SetPanicOnFault(true)
 	s.mu.Lock()
 	s.heldSeq++
 	id := s.heldSeq
@@ -649,6 +661,23 @@ func (s *Sess) hold(b []byte) {
 	}
 	s.mu.Unlock()
 	s.R.Emit(Ev{"e": "hold", "id": id, "d": fmt.Sprintf("%d:%016x", len(b), fnv64(b))})
+	// the slice is the caller's: so is its spare capacity (b = append(b, ...) is the documented idiom of
+	// GetAppend).  Writing there must not reach memory the database still uses.
+	if spare := b[len(b):cap(b)]; len(spare) > 0 {
+		func() {
+			defer func() {
+				if p := recover(); p != nil {
+					s.R.Emit(Ev{"e": "fault", "what": fmt.Sprintf("writing into the spare capacity of a returned slice: %v", p)})
+				}
+			}()
+			if len(spare) > 4096 {
+				spare = spare[:4096]
+			}
+			for i := range spare {
+				spare[i] = 0x5A
+			}
+		}()
+	}
 }
 
 // ObserveHeld re-reads every held slice (a slice into unmapped memory faults: recorded).
